@@ -95,8 +95,14 @@ def build(scn, with_faults=True):
     if 'default_pattern' in o:
         h.pattern = o['default_pattern']
 
-    for name in scn.get('patterns', {}):
-        wn.add_pattern(name, list(scn['patterns'][name]))
+    for k_, name in enumerate(scn.get('patterns', {})):
+        if scn.get('pattern_objects') and k_ % 2 == 0:
+            # a Pattern object made elsewhere (with time options of its own): added to a model it follows the model's time options
+            from wntr.network.elements import Pattern
+            step = int(scn['options'].get('pattern_step', 3600))
+            wn.add_pattern(name, Pattern(name, multipliers=list(scn['patterns'][name]), time_options=(step * 3, step * 2 + 60)))
+        else:
+            wn.add_pattern(name, list(scn['patterns'][name]))
     for name, c in scn.get('curves', {}).items():
         wn.add_curve(name, c['type'], [tuple(p) for p in c['points']])
 
